@@ -98,6 +98,18 @@ def selectors(tier):
     return out
 
 
+def raw_selectors():
+    """(AST, text): spellings a renderer would not produce - comments with words and quoted strings next to the commas, bare identifiers."""
+    cont = lambda own, texts: ('contains', own, tuple(texts), None)
+    out = []
+    for own, name in ((False, '-soup-contains'), (True, '-soup-contains-own'), (False, 'contains')):
+        ast = (S.cx(S.cp(S.T('p'), cont(own, ('ab', 'zz')))),)
+        for text in ('p:%s("ab" /* "cd" */, "zz")', 'p:%s("ab", /* cd */ "zz")', 'p:%s( "ab" /* \'cd\' , x */ , zz )', 'p:%s(ab,zz)', "p:%s('ab'/* cd */,/* \"cd\" */'zz')",
+                     'p:%s(\n"ab"\n,\n"zz"\n)', 'p:%s("ab" , /* a, "cd", b */ "zz")'):
+            out.append((ast, text % name))
+    return out
+
+
 def shards(tier, seed):
     n = 48 if tier == 'quick' else 160
     return [(tier, i, n) for i in range(n)]
@@ -123,7 +135,7 @@ def run_shard(desc):
     tier, i, n = desc
     res = shard.Result()
     subs = [('e', 'p', (), tuple(w)) for w in subjects(tier)] + deep_layouts()
-    sels = [(lst, S.render(lst)) for lst in selectors(tier)]
+    sels = [(lst, S.render(lst)) for lst in selectors(tier)] + raw_selectors()
     if i == 0:
         res.count('subjects', len(subs))
         res.count('selectors', len(sels))
